@@ -234,7 +234,17 @@ def case_term(grammar_text: str, result: dict, call_invalid: bool) -> str | None
             inputs.append(f"({clist(one['tokens'], tok_term)}, {clist(runs)})")
     if not inputs:
         return None
-    return f"({term}, {cN(fresh)}, {action_table(result['text'])}, {cbool(call_invalid)}, {clist(inputs)})"
+    head = f"({term}, {cN(fresh)}, {action_table(result['text'])}, {cbool(call_invalid)}, "
+    case = head + clist(inputs) + ")"
+    _WF[case] = head + "[])"
+    return case
+
+
+_WF: dict[str, str] = {}      # case term -> the same case with an empty input list
+
+
+def _strip_inputs(case: str) -> str:
+    return _WF.get(case, case)
 
 
 CASE_T = "rcase"
@@ -290,7 +300,9 @@ def krun(chk, pid: str, grammar_texts: list[str], inputs_for, configs=("q1",), c
                        f"parsers on {len(cases)} grammars x inputs x configurations {list(configs)} (outcome, value, final "
                        "position, tokens fetched, error-mode flag and the whole per-invocation event trace)",
                        not failing, detail)
-        nwf = common.run_cases(chk, "kwf", prelude(tokens_set()), CASE_T, cases, "rcase_wf", shard=max(shard, 40), timeout=600)
+        # ir_wf looks at the grammar only: the same cases without their (large) input/trace lists
+        wf_cases = [_strip_inputs(c) for c in cases]
+        nwf = common.run_cases(chk, "kwf", prelude(tokens_set()), CASE_T, wf_cases, "rcase_wf", shard=max(shard, 40), timeout=900)
         if nwf is not None:
             chk.bump("explored grammars whose generated module satisfies ir_wf (hypothesis of the position/flag theorems)",
                      len(cases) - len(nwf))
